@@ -60,6 +60,8 @@ type Run struct {
 	seen   map[string]int
 	Stats  map[string]int
 	Notes  []string
+	// NoPosex: positive examples were not injected; do not demand that they be flagged.
+	NoPosex bool
 	Extras map[string]interface{}
 }
 
@@ -179,7 +181,7 @@ func (r *Run) Finish(verifDir string, known *KnownFile, meta Meta) int {
 				fmt.Sprintf("rule matched %d instances, fewer than the %d confirmed by hand: the rule no longer sees the code it was written for", ri.Instances, ri.Floor), nil)
 			ri.Instances-- // the synthetic obligation is not an instance
 		}
-		if ri.NeedArmed && ri.ArmedHits == 0 {
+		if ri.NeedArmed && ri.ArmedHits == 0 && !r.NoPosex {
 			r.add(name, "positive-example", token.NoPos, Undecided,
 				"the in-memory positive example for this rule was not flagged: the rule is not armed", nil)
 			ri.Instances--
